@@ -21,11 +21,13 @@ func init() {
 		Desc: "one Refresh (poll + applyUpdates + cache flush) from an arbitrary store state against an arbitrary service state"})
 	c11.Harnesses = append(c11.Harnesses, &HarnessSpec{Name: "verifHarnessC11Jitter", Pkg: "client/setec", Stubs: clientStubs, Params: map[string]int{}, ExpectReach: []string{"end"}, Solver: "cvc5-int",
 		ModelOnlyLabels: map[string]string{"within-ten-percent": "the counterexample fixes the result of math/rand.Intn, which the native run cannot control"},
-		Desc:            "run(): ticker period = interval + jitter with |jitter| <= interval/10 for every 64-bit interval in [5ns, 2^62ns) and every rand.Intn result (bit-vector arithmetic incl. signed division by 10)"})
+		Desc:            "run(): ticker period = interval + jitter with |jitter| <= interval/10 for every positive 64-bit interval and every result of the random draw (bit-vector arithmetic incl. signed division by 10)"})
 	c11.Harnesses = append(c11.Harnesses, &HarnessSpec{Name: "verifHarnessC11RunLoop", Pkg: "client/setec", Stubs: clientStubs, Params: map[string]int{"ticks": 2}, ThoroughParams: map[string]int{"ticks": 4},
 		ExpectReach: []string{"end"}, NoNative: "the ticker and the poller's context are environment channels on a ghost schedule",
 		Desc: "Store.run: exactly one poll per tick, tick acknowledged, poll errors do not stop the loop, cancellation ends it with a cache flush"})
-	c11.Bounds["poll interval"] = "5 ns <= interval < 2^62 ns (outside: rand.Intn(0) panics below 5 ns, 2*interval overflows above)"
+	c11.Harnesses = append(c11.Harnesses, ch("verifHarnessC11PollAfterFailedFlush", map[string]int{"names": 2}, map[string]int{"names": 3}, []string{"end", "end-repaired"},
+		"two polls: the first installs new versions while the cache cannot be written, the second finds nothing new with a working cache: afterwards the cache holds what the store yields"))
+	c11.Bounds["poll interval"] = "every positive 64-bit interval (the earlier bound 5 ns <= interval < 2^62 ns hid a genuine defect, now repaired)"
 	propRegistry = append(propRegistry, c11)
 	c19 := &Property{ID: "C19", Pkgs: []string{"client/setec"}, Bounds: map[string]string{"names in the store": "2 / 3", "time": "any instants within +-2^40 s, ages any int64 ns"}}
 	c19.Harnesses = append(c19.Harnesses,
@@ -79,6 +81,7 @@ func ch(name string, params, thorough map[string]int, reach []string, desc strin
 			"no-request-under-lock": lockNote, "lock-released": lockNote, "lockset": lockNote, "rebuild-is-atomic-under-updater-lock": lockNote,
 			"flight-in-progress-never-forgotten": sfNote, "concurrent-registration-not-lost": sfNote,
 			"first-callers-handle-follows-the-install": sfNote, "second-callers-handle-follows-the-install": sfNote, "a-later-handle-follows-the-install": sfNote,
+			"updater-built-from-the-bytes-the-store-holds-now": sfNote, "handle-and-updater-agree": sfNote,
 			"data-race": raceNote, "every-failed-field-is-reported": egNote, "only-fields-whose-own-lookup-failed-stay-unfilled": egNote}}
 }
 
@@ -133,6 +136,7 @@ func init() {
 		ch("verifHarnessC15Updater", map[string]int{"steps": 4}, map[string]int{"steps": 6}, []string{"end", "end-create-failed"}, "NewUpdater + bounded histories of installs and Gets with failing builders and closers"),
 		ch("verifHarnessC15TwoUpdaters", map[string]int{"steps": 4}, map[string]int{"steps": 5}, []string{"end"}, "two updaters on one secret: every install reaches both, each rebuilds only when owed"),
 		ch("verifHarnessC15Notify", map[string]int{}, nil, []string{"end"}, "notify is non-blocking and a level trigger"),
+		ch("verifHarnessC15RacingLookupUpdater", map[string]int{"names": 1}, map[string]int{"names": 2}, []string{"end"}, "an updater created by one caller while another caller's lookup of the same name is about to fetch (the secret may be rotated in between): the updater is not left behind by the second lookup"),
 		ch("verifHarnessC12ApplyUpdates", map[string]int{"names": 2}, map[string]int{"names": 3}, []string{"end", "end-watched-updated"}, "an install with an arbitrary update set and a possibly failing cache write notifies the watcher of every updated name"),
 		ch("verifHarnessC16LookupWatcher", map[string]int{"names": 2}, map[string]int{"names": 3}, []string{"end-ok", "end-raced"}, "watcher registration for known and looked-up names, also when another updater registers concurrently"))
 	propRegistry = append(propRegistry, c15)
